@@ -221,6 +221,18 @@ def make_spec(prog, rng, options=None, actions=None, extra_top="", epilogue=None
         out.append("%s\t{ %s }" % (p, act))
         i += 1
     out.append("%%")
+    names = prog.get('scnames')
+    if names:
+        # start conditions under other names than SCn (names that are prefixes of each other and share a hash bucket of flex's
+        # symbol table): only declarations and <...> prefixes are rewritten
+        def ren(text):
+            return re.sub(r"\bSC(\d+)\b", lambda m: names.get(int(m.group(1)), m.group(0)), text)
+        for i, line in enumerate(out):
+            if line.startswith("%x ") or line.startswith("%s "):
+                out[i] = ren(line)
+            elif line.startswith("<") and ">" in line:
+                j = line.index(">")
+                out[i] = ren(line[:j + 1]) + line[j + 1:]
     out.append(epilogue or backends.epilogue(backend, nrules + 1))
     return "\n".join(out) + "\n"
 
